@@ -16,19 +16,18 @@ vars == <<pc, call, exp>>
 IsCall(c) ==
     \/ \E n \in 1..2, l \in 2..MaxLen, left \in BOOLEAN :
          \E d1 \in Subsets(0..(l - 1), MaxDel), d2 \in (IF n = 1 THEN {{}} ELSE Subsets(0..(l - 1), MaxDel)) :
-            /\ d1 \cup d2 # {}
             /\ Cardinality(d1) < l /\ Cardinality(d2) < l
             /\ c = Call("deletion", Batch(n, l), ToRows({ <<0, p>> : p \in d1 } \cup { <<1, p>> : p \in d2 }), left)
     \/ \E l \in 2..MaxLen, left \in BOOLEAN : \E bad \in {<<2, 0>>, <<0, l>>} :         \* cannot be honoured
             c = Call("deletion", Batch(2, l), <<bad>>, left)
     \/ \E n \in 1..2, l \in 1..(MaxLen - 1), left \in BOOLEAN :
          \E r \in Subsets((0..(n - 1)) \X (0..l) \X (0..1), 2) :
-            r # {} /\ c = Call("insertion", Batch(n, l), ToRows({ <<t[1], t[2], (t[3] + 2) % Alpha>> : t \in r }), left)
+            c = Call("insertion", Batch(n, l), ToRows({ <<t[1], t[2], (t[3] + 2) % Alpha>> : t \in r }), left)
     \/ \E l \in 1..(MaxLen - 1), left \in BOOLEAN : \E bad \in {<<2, 0, 1>>, <<0, l + 1, 1>>} :
             c = Call("insertion", Batch(2, l), <<bad>>, left)
     \/ \E n \in 1..2, l \in 1..(MaxLen - 1) :
          \E r \in Subsets((0..(n - 1)) \X (0..(l - 1)) \X (0..(Alpha - 1)), 2) :
-            r # {} /\ c = Call("substitution", Batch(n, l), ToRows(r), FALSE)
+            c = Call("substitution", Batch(n, l), ToRows(r), FALSE)
     \/ \E l \in 1..(MaxLen - 1) : \E bad \in {<<2, 0, 1>>, <<0, l, 1>>} :
             c = Call("substitution", Batch(2, l), <<bad>>, FALSE)
 
